@@ -44,6 +44,7 @@ def plan(tier):
 
 def required(tier):
     return {
+        "trees.glr_prefix_mode": 1000,
         "nontrivial": 3000 if tier == "quick" else 30000,
         "trees.lr": 3000,
         "trees.glr": 10000,
@@ -216,6 +217,11 @@ def one_grammar(ctx, g, alphabet, maxlen):
     except Exception as e:  # noqa: BLE001
         ctx.count("construction_failed:" + type(e).__name__)
         return
+    # trees of sentence *prefixes* (consume_input=False): each is faithful to the prefix it reads
+    try:
+        glr.prefix_parser = pgx.glr(pg, consume_input=False) if rng.random() < 0.3 else None
+    except Exception:  # noqa: BLE001
+        glr.prefix_parser = None
     lr = None
     try:
         with pgx.watchdog(20):
@@ -340,6 +346,33 @@ def check_input(ctx, g, glr, lr, case, inp, skip, extra=(None, None)):
         ctx.case(key + ("GLR",), has_layout or had_empty, sample={"grammar": case["grammar"], "input": inp, "parser": "GLR", "trees": o.len})
     elif o.kind != "forest":
         ctx.count("glr_rejected_or_failed")
+    pp = getattr(glr, "prefix_parser", None)
+    if pp is not None:
+        try:
+            with pgx.watchdog(30):
+                po = glrobs.parse_glr(pp, inp)
+        except (pgx.CaseTimeout, pgx.BudgetExceeded):
+            po = None
+        if po is not None and po.kind == "forest" and not po.loop:
+            for i in range(min(po.len, 20)):
+                t = po.forest[i]
+                lv = pgx.tree_leaves(t)
+                pend = lv[-1].end_position if lv else 0
+                if not (type(pend) is int and 0 <= pend <= len(inp)):
+                    continue
+                pend = skip(inp, pend)
+                errs, st = check_tree(t, inp[:pend], is_layout)
+                ctx.count("trees.glr_prefix_mode")
+                known = None
+                if errs and has_layout and st["empty"] > 0 and not os.environ.get("PGV_NOCLASS"):
+                    if all(sig in ("child-outside-parent", "siblings-overlap", "start-after-end") for sig, _ in errs):
+                        cerrs, _ = check_tree(t, inp[:pend], is_layout, canon=gap_canon(st["leaves"], pend))
+                        if not cerrs:
+                            known = "KF-C08-2"
+                for sig, detail in errs:
+                    ctx.violation("glr-prefix:" + sig, dict(case, parser="GLR-prefix", tree=i), "consume_input=False, forest[%d] (prefix %r): %s" % (i, inp[:pend], detail), known=known)
+                if errs:
+                    break
     # --- parse(input, position=k): positions stay absolute ---
     if lr is not None and hash(inp) % 5 == 0:
         pre = "#?" + inp[:1]
@@ -418,6 +451,7 @@ def replay(case, ctx):
     g = cfg.G.from_json(case["g"])
     pg = pgx.grammar(case["grammar"], ignore_case=case["ignore_case"])
     glr = pgx.glr(pg)
+    glr.prefix_parser = pgx.glr(pg, consume_input=False) if case.get("parser") == "GLR-prefix" else None
     lr = None
     try:
         lr = pgx.lr(pgx.grammar(case["grammar"], ignore_case=case["ignore_case"]), build_tree=True)
